@@ -27,7 +27,8 @@ RULE = ("A case is one gene on a real record plus the protein ranges asked of it
         "circular record, one in three circular genes rotated so that the origin falls inside an exon, "
         "exactly on an exon border or inside an intron; the gene is created through CDSFeature.from_biopython "
         "with a codon_start qualifier and without a translation qualifier, so the frameshift and translation "
-        "paths are the real ones. The sequence has no in-frame stop except an optional terminal one; start codon "
+        "paths are the real ones; non-spanning genes are also made partial (<start and/or >end), the shape in which "
+        "codon_start 2/3 occurs. The sequence has no in-frame stop except an optional terminal one; start codon "
         "ATG/GTG/TTG. Genes up to 40 residues get ALL ranges 0<=s<e<=n; longer genes (to 330 residues) get "
         "ranges drawn around exon borders and ends. Enumeration: every 1-3 exon split of a 5-codon gene x "
         "strand x intron x every rotation of a ring that holds it, all ranges. Non-trivial: the gene has more "
@@ -629,7 +630,6 @@ def check_tta(spec: dict) -> dict:
     shifted = shifted_location(case.loc, case.codon_start)
     owners = [number for number, (lo, hi) in enumerate(shifted["parts"]) for _ in range(lo, hi)]
     for index in range(codons):
-        want = case.order[3 * index:3 * index + 3]
         contiguous = len({owners[p] for p in range(3 * index, 3 * index + 3)}) == 1   # inside one exon
         if not contiguous:
             split += 1
@@ -807,13 +807,10 @@ def layout(exons: list, introns: list, strand: int, length: int, start: int) -> 
         else:
             parts.append([first, last])
         pos = last + (gaps[index] if index < len(gaps) else 0)
-    merged = []
-    for part in parts:   # touching exons stay separate parts, nothing to merge; kept for clarity
-        merged.append(part)
     if strand == -1:
-        merged.reverse()
-    loc = {"parts": merged, "strand": strand}
-    loc["kind"] = "simple" if len(merged) == 1 else ("span" if gen.is_span(loc) else "multi")
+        parts.reverse()
+    loc = {"parts": parts, "strand": strand}
+    loc["kind"] = "simple" if len(parts) == 1 else ("span" if gen.is_span(loc) else "multi")
     return loc
 
 
@@ -981,8 +978,11 @@ def run(ctx) -> None:
     shards = ctx.pick(4, 16)
     ctx.enum("sub_enum", enum_small_genes(ctx.pick(3, 5), ctx.pick(1, 2)), shards=ctx.pick(8, 16))
     ctx.enum("tta_enum", enum_tta_genes(), shards=ctx.pick(8, 16))
-    ctx.hyp("sub", gene_specs(max_codons=40), max_examples=ctx.pick(400, 6000), shards=shards)
-    ctx.hyp("sub", gene_specs(max_codons=330, sampled_ranges=True), max_examples=ctx.pick(300, 6000), shards=shards)
-    ctx.hyp("prepeptide", prepeptide_specs(), max_examples=ctx.pick(600, 12000), shards=shards)
-    ctx.hyp("domains", domain_specs(), max_examples=ctx.pick(400, 8000), shards=shards)
-    ctx.hyp("tta", gene_specs(max_codons=40, tta=True), max_examples=ctx.pick(500, 10000), shards=shards)
+    ctx.hyp("sub", gene_specs(max_codons=40), max_examples=ctx.pick(800, 20000), shards=shards)
+    ctx.hyp("sub", gene_specs(max_codons=330, sampled_ranges=True), max_examples=ctx.pick(500, 15000), shards=shards)
+    ctx.hyp("prepeptide", prepeptide_specs(), max_examples=ctx.pick(1200, 30000), shards=shards)
+    ctx.hyp("domains", domain_specs(), max_examples=ctx.pick(600, 15000), shards=shards)
+    ctx.hyp("tta", gene_specs(max_codons=40, tta=True), max_examples=ctx.pick(1000, 25000), shards=shards)
+    ctx.extra["bounds"] = {"all_ranges_up_to_residues": 40, "sampled_ranges_up_to_residues": 330,
+                           "exons": 4, "record_length_up_to": 1500,
+                           "enumerated_gene_codons": ctx.pick(3, 5)}
